@@ -16,7 +16,11 @@ func main() {
 	case "dump":
 		// govc dump <funcSubstring> <patterns...>
 		t0 := time.Now()
-		P, err := loadProgram("/repo", os.Args[3:], nil)
+		repo := "/repo"
+		if r := os.Getenv("VERIF_REPO"); r != "" {
+			repo = r
+		}
+		P, err := loadProgram(repo, os.Args[3:], nil)
 		if err != nil {
 			fmt.Fprintln(os.Stderr, err)
 			os.Exit(2)
